@@ -67,6 +67,7 @@ type node struct {
 	toJSON  string // behaviour name of an own toJSON host function ("" = none)
 	label   int    // >0: can be the target of nRef
 	ref     int
+	target  bool // the object a holder-mutating toJSON operates on (mutators.go)
 }
 
 func lf(v rj.Value) *node         { return &node{kind: nLeaf, leaf: v} }
@@ -132,7 +133,12 @@ func (n *node) model(h *hostModel, labels map[int]*rj.Obj) rj.Value {
 			o.Put(rj.K(n.keys[i]), n.kids[i].model(h, labels))
 		}
 	}
-	if n.toJSON != "" {
+	if n.target {
+		h.target = o
+	}
+	if strings.HasPrefix(n.toJSON, "mut:") {
+		o.Put(rj.K("toJSON"), rj.ObjV(h.mutFn("toJSON", mutatorByName(n.toJSON[4:]))))
+	} else if n.toJSON != "" {
 		o.Put(rj.K("toJSON"), rj.ObjV(h.fn("toJSON", n.toJSON)))
 	}
 	return rj.ObjV(o)
@@ -254,7 +260,12 @@ func (n *node) js(sb *strings.Builder, cnt *int, labels map[int]string) string {
 			fmt.Fprintf(sb, "%s[%s]=%s;", name, jsStr(rj.U(n.keys[i])), e)
 		}
 	}
-	if n.toJSON != "" {
+	if n.target {
+		fmt.Fprintf(sb, "__target=%s;", name)
+	}
+	if strings.HasPrefix(n.toJSON, "mut:") {
+		fmt.Fprintf(sb, "%s.toJSON=__mtj_%s;", name, n.toJSON[4:])
+	} else if n.toJSON != "" {
 		fmt.Fprintf(sb, "%s.toJSON=__tj_%s;", name, n.toJSON)
 	}
 	return name
